@@ -76,6 +76,8 @@ var bodies = []body{
 	{name: "try-value-throw", loop: "acc += try { throw(1); 1 } catch e { 2 };", throw: true},
 	{name: "throw-across-call", decl: "fn t(x: int) { throw(x); }", loop: "try { t(i); } catch e { acc += 1; }", throw: true},
 	{name: "throw-across-2-calls", decl: "fn t(x: int) { throw(x); }\nfn u(x: int) -> int { t(x); 1 }", loop: "try { acc += u(i); } catch e { acc += 1; }", throw: true},
+	{name: "builtin-arg-throws", decl: "fn t(x: int) -> int { throw(x); 1 }", loop: "try { println(t(i)); } catch e { acc += 1; }", throw: true},
+	{name: "member-arg-throws", decl: "fn t(x: int) -> int { throw(x); 1 }", pre: "let sink = [0];", loop: "try { sink.push(t(i)); } catch e { acc += 1; }", throw: true},
 	{name: "builtin-throw", loop: "let o: ?int = none; try { acc += o.unwrap(); } catch e { acc += 1; }", throw: true},
 	{name: "match-hit", loop: "acc += match i % 3 { 0 => 1, 1 => 2, 2 => 3, _ => 4 };"},
 	{name: "match-default", loop: "acc += match i { -1 => 1, _ => 2 };"},
@@ -131,6 +133,9 @@ func familyProgram(p Payload) string {
 	switch p.Family {
 	case "rec":
 		return fmt.Sprintf("fn r(n: int) -> int { if n <= 0 { 0 } else { 1 + r(n - 1) } }\nfn main() { println(r(%d)); }\n", p.A)
+	case "rec-val":
+		// every call goes through a function value
+		return fmt.Sprintf("fn r(n: int) -> int { let f = r; if n <= 0 { 0 } else { 1 + f(n - 1) } }\nfn main() { let g = r; println(g(%d)); }\n", p.A)
 	case "nest-sum":
 		return "fn main() { println(" + strings.Repeat("1 + (", p.A) + "1" + strings.Repeat(")", p.A) + "); }\n"
 	case "nest-list":
@@ -183,6 +188,7 @@ func (c09) Cases(tier string, seed uint64) []fw.Case {
 				for _, d := range around(lc) {
 					if d > 0 {
 						add(Payload{Family: "rec", A: d, Lc: lc, Ls: ls, Lm: lm})
+						add(Payload{Family: "rec-val", A: d, Lc: lc, Ls: ls, Lm: lm})
 					}
 				}
 				for _, d := range around(ls) {
@@ -207,6 +213,7 @@ func (c09) Cases(tier string, seed uint64) []fw.Case {
 		for _, d := range []int{1, int(lc) / 2, int(lc) - 6, int(lc) + 6, int(lc) * 3} {
 			if d > 0 {
 				add(Payload{Family: "rec", A: d, Tree: lc})
+				add(Payload{Family: "rec-val", A: d, Tree: lc})
 			}
 		}
 	}
@@ -243,7 +250,8 @@ func (c09) Run(c fw.Case) fw.Result {
 		res.Verdict, res.Sig, res.Why = fw.Violated, sig, why
 	}
 	if p.Tree != 0 {
-		return runTree(p, ao, src, res, fail)
+		runTree(p, ao, src, &res, fail)
+		return res
 	}
 	prog, err := drive.Compile(ao.Modules, "main")
 	if err != nil {
@@ -329,12 +337,12 @@ func (c09) Run(c fw.Case) fw.Result {
 	return res
 }
 
-func runTree(p Payload, ao drive.AnalyzeOut, src drive.Sources, res fw.Result, fail func(string, string)) fw.Result {
+func runTree(p Payload, ao drive.AnalyzeOut, src drive.Sources, res *fw.Result, fail func(string, string)) {
 	tr := drive.RunTree(ao.Modules, src, "main", drive.TreeOpts{CallLimit: p.Tree, StepBudget: 400_000_000})
 	o := tr.Outcome
 	res.Nontrivial = true
 	switch p.Family {
-	case "rec":
+	case "rec", "rec-val":
 		// r(d) needs d+2 nested user calls (main, r x (d+1)); builtins add at most one more level
 		need := p.A + 2
 		switch {
@@ -349,7 +357,6 @@ func runTree(p Payload, ao drive.AnalyzeOut, src drive.Sources, res fw.Result, f
 			fail("tree:leak:stopped:"+o.Class+"/"+o.Kind, fmt.Sprintf("%d iterations of a bounded-depth body under call limit %d ended with %s", p.A, p.Tree, o))
 		}
 	}
-	return res
 }
 
 func (c09) OnCrash(c fw.Case, cr fw.Crash) fw.Result {
